@@ -426,3 +426,42 @@ fn f_c06_2_removed_then_failed() {
     // the loop must stay usable (on the unfixed tree: panic "entered unreachable code")
     assert!(el.dispatch(Duration::from_millis(10), &mut data).is_ok());
 }
+
+// ---------------------------------------------------------------- F-C04-1
+// sync_channel(0): a blocking send can hang for ever although the loop keeps dispatching. The race needs the loop
+// to consume the ping of the failed try_send before the sender thread has parked in the blocking send: it is a
+// matter of scheduling, so the probe repeats the experiment (up to 3000 rounds).
+// Noticed by a sub-agent of the optimisation round while stress-testing the ping source; C04.6.
+#[test]
+fn f_c04_1_rendezvous_send_hangs() {
+    use calloop::channel::{sync_channel, Event};
+    let mut hangs = 0;
+    for round in 0..3000u32 {
+        let mut el: EventLoop<usize> = EventLoop::try_new().unwrap();
+        let (tx, rx) = sync_channel::<u32>(0);
+        el.handle()
+            .insert_source(rx, |ev, _, got| {
+                if let Event::Msg(_) = ev {
+                    *got += 1;
+                }
+            })
+            .unwrap();
+        let th = std::thread::spawn(move || {
+            tx.send(round).unwrap();
+            std::thread::sleep(Duration::from_millis(1));
+        });
+        let mut got = 0usize;
+        let start = Instant::now();
+        // the loop keeps dispatching (short timeouts) for up to 2 s
+        while got == 0 && start.elapsed() < Duration::from_secs(2) {
+            el.dispatch(Duration::from_millis(20), &mut got).unwrap();
+        }
+        if got == 0 {
+            hangs += 1;
+            std::mem::forget(th); // the sender is parked for good
+            break;
+        }
+        th.join().unwrap();
+    }
+    assert_eq!(hangs, 0, "a blocking send on sync_channel(0) never completed although the loop kept dispatching");
+}
